@@ -343,6 +343,10 @@ func driveC07(o opts) error {
 				return err
 			}
 			ops := tg.txn(4)
+			if ti == 0 && g.Chance(0.6) {
+				// a populated database: parents with children, weak references in a set and in an optional column of one row
+				ops = c02Seed(tg)
+			}
 			if lifecycle && ti >= nt-3 {
 				switch ti - (nt - 3) {
 				case 0:
